@@ -32,8 +32,9 @@ RULE = ('three real simulators on the same (block, initial registers/memories, i
         '(1) limb-sweep designs: every primitive op at operand widths 63,64,65,127,128,129 (+ mixed-width '
         'concats whose pieces straddle 64-bit limbs, strided/reversed selects across limbs, wide registers '
         'and memories, raw LogicNets with truncating destinations so that every mask branch of both code '
-        'generators is reached); (2) random API-built designs (gen_designs, wide_prob 0.55, probe Outputs on '
-        'every internal wire); each also synthesized (merge_io_vectors True/False) and optimized; a case = '
+        'generators is reached); (2) random API-built designs (gen_designs, probe Outputs on every internal '
+        'wire; alternately wide_prob 0.55 and small ones cheap enough to synthesize) plus a few raw truncating '
+        'nets; each also optimized and, when its gate count allows, synthesized (merge_io_vectors True/False); a case = '
         '(block variant, stimulus), distinct by hash of its Simulation trace, non-trivial when at least '
         'half of its non-constant wires changed value')
 IMPORTS_SPEC = 'From PyRTL Require Import Netlist.Sem Netlist.WFDefs Netlist.SpecHarness.'
